@@ -21,6 +21,10 @@ const h2bPkg = "bfe_http2"
 type h2bEnv struct {
 	c   *core.Ctx
 	fns []*ssa.Function // all functions (with closures) of package bfe_http2 itself
+	ix  *h2bIndex       // call-site index, regions (x_h2b_r.go)
+	// anchors: the functions the rules name (resolved through fn); a region never
+	// absorbs another anchor, rules about it look at it separately
+	anchors map[*ssa.Function]bool
 }
 
 func h2bNew(c *core.Ctx) *h2bEnv {
@@ -45,6 +49,15 @@ func (e *h2bEnv) fn(name string) *ssa.Function {
 		return nil
 	}
 	e.c.Analysed(core.FuncKey(f))
+	if !e.anchors[f] {
+		if e.anchors == nil {
+			e.anchors = map[*ssa.Function]bool{}
+		}
+		e.anchors[f] = true
+		if e.ix != nil {
+			e.ix.regs = map[*ssa.Function]*h2bReg{} // regions computed so far may have absorbed f
+		}
+	}
 	return f
 }
 
@@ -131,15 +144,34 @@ func h2bStoreField(st *ssa.Store, fld *types.Var) (ssa.Value, bool) {
 
 // h2bEq: structural identity of two SSA values as storage/expressions
 // (go/ssa has no CSE: two loads of st.parent are two values).
-func h2bEq(a, b ssa.Value) bool { return h2bEqD(a, b, 0) }
+func h2bEq(a, b ssa.Value) bool { return h2bEqWith(h2bCanon, a, b, 0) }
 
-func h2bEqD(a, b ssa.Value, d int) bool {
-	a, b = h2bCanon(a), h2bCanon(b)
+func h2bEqD(a, b ssa.Value, d int) bool { return h2bEqWith(h2bCanon, a, b, d) }
+
+// h2bEqWith is h2bEq with the representative function canon applied at every
+// level (h2bCanon, or h2bEnv.rep to look through helper boundaries).
+func h2bEqWith(canon func(ssa.Value) ssa.Value, a, b ssa.Value, d int) bool {
+	return h2bEqAlt(canon, nil, a, b, d)
+}
+
+// h2bEqAlt: alt (optional) gives a second representative of a value that is
+// tried when the first ones differ (the result of a helper call <-> the value
+// the helper returns).
+func h2bEqAlt(canon, alt func(ssa.Value) ssa.Value, a, b ssa.Value, d int) bool {
+	a, b = canon(a), canon(b)
 	if a == b {
 		return true
 	}
 	if a == nil || b == nil || d > 8 {
 		return false
+	}
+	if alt != nil {
+		if a2 := alt(a); a2 != nil && h2bEqAlt(canon, alt, a2, b, d+1) {
+			return true
+		}
+		if b2 := alt(b); b2 != nil && h2bEqAlt(canon, alt, a, b2, d+1) {
+			return true
+		}
 	}
 	switch x := a.(type) {
 	case *ssa.Const:
@@ -153,22 +185,22 @@ func h2bEqD(a, b ssa.Value, d int) bool {
 		return constant.Compare(x.Value, token.EQL, y.Value)
 	case *ssa.UnOp:
 		y, ok := b.(*ssa.UnOp)
-		return ok && x.Op == y.Op && h2bEqD(x.X, y.X, d+1)
+		return ok && x.Op == y.Op && h2bEqAlt(canon, alt, x.X, y.X, d+1)
 	case *ssa.FieldAddr:
 		y, ok := b.(*ssa.FieldAddr)
-		return ok && core.FieldObj(x.X, x.Field) == core.FieldObj(y.X, y.Field) && h2bEqD(x.X, y.X, d+1)
+		return ok && core.FieldObj(x.X, x.Field) == core.FieldObj(y.X, y.Field) && h2bEqAlt(canon, alt, x.X, y.X, d+1)
 	case *ssa.Field:
 		y, ok := b.(*ssa.Field)
-		return ok && core.FieldObj(x.X, x.Field) == core.FieldObj(y.X, y.Field) && h2bEqD(x.X, y.X, d+1)
+		return ok && core.FieldObj(x.X, x.Field) == core.FieldObj(y.X, y.Field) && h2bEqAlt(canon, alt, x.X, y.X, d+1)
 	case *ssa.Convert:
 		y, ok := b.(*ssa.Convert)
-		return ok && types.Identical(x.Type(), y.Type()) && h2bEqD(x.X, y.X, d+1)
+		return ok && types.Identical(x.Type(), y.Type()) && h2bEqAlt(canon, alt, x.X, y.X, d+1)
 	case *ssa.Extract:
 		y, ok := b.(*ssa.Extract)
 		return ok && x.Index == y.Index && x.Tuple == y.Tuple
 	case *ssa.Lookup:
 		y, ok := b.(*ssa.Lookup)
-		return ok && x.CommaOk == y.CommaOk && h2bEqD(x.X, y.X, d+1) && h2bEqD(x.Index, y.Index, d+1)
+		return ok && x.CommaOk == y.CommaOk && h2bEqAlt(canon, alt, x.X, y.X, d+1) && h2bEqAlt(canon, alt, x.Index, y.Index, d+1)
 	case *ssa.Call:
 		// pure accessors on the same receiver (len, Header(), StreamEnded()...) are
 		// compared by callee and arguments
@@ -176,18 +208,18 @@ func h2bEqD(a, b ssa.Value, d int) bool {
 		if !ok || core.CalleeKey(&x.Call) != core.CalleeKey(&y.Call) || len(x.Call.Args) != len(y.Call.Args) {
 			return false
 		}
-		if x.Call.IsInvoke() && !h2bEqD(x.Call.Value, y.Call.Value, d+1) {
+		if x.Call.IsInvoke() && !h2bEqAlt(canon, alt, x.Call.Value, y.Call.Value, d+1) {
 			return false
 		}
 		for i := range x.Call.Args {
-			if !h2bEqD(x.Call.Args[i], y.Call.Args[i], d+1) {
+			if !h2bEqAlt(canon, alt, x.Call.Args[i], y.Call.Args[i], d+1) {
 				return false
 			}
 		}
 		return true
 	case *ssa.BinOp:
 		y, ok := b.(*ssa.BinOp)
-		return ok && x.Op == y.Op && h2bEqD(x.X, y.X, d+1) && h2bEqD(x.Y, y.Y, d+1)
+		return ok && x.Op == y.Op && h2bEqAlt(canon, alt, x.X, y.X, d+1) && h2bEqAlt(canon, alt, x.Y, y.Y, d+1)
 	}
 	return false
 }
@@ -298,14 +330,7 @@ func (r h2bRel) Flag(pol bool, m func(ssa.Value) bool) bool {
 
 // h2bGuarded: on every way into b a fact accepted by pred has been established.
 func h2bGuarded(b *ssa.BasicBlock, pred func(r h2bRel) bool) bool {
-	return core.AllEdgesGuarded(b, func(g core.Guard) bool {
-		for _, r := range h2bExpand(g.Cond, g.Pol, 0) {
-			if pred(r) {
-				return true
-			}
-		}
-		return false
-	})
+	return h2bGuardedD(nil, b, pred, 0)
 }
 
 // h2bExpand turns a branch fact into the relations it implies. Besides the
